@@ -70,7 +70,7 @@ func c16Run(c pcCase) (V, Verdict) {
 		return obs, v
 	}
 	v.NonTrivial = listed > 0
-	v.Class = fmt.Sprintf("rounds%d/fromRemote%d/prefs%d/bound%d/listed%d", len(r.Exchanges), min(fromRemote, 3), min(withPrefs, 3), min(bound, 3), min(listed, 8)/4*4)
+	v.Class = fmt.Sprintf("rounds%d/fromRemote%d/prefs%d/bound%d/listed<=%d", len(r.Exchanges), min(fromRemote, 3), min(withPrefs, 3), min(bound, 3), (min(listed, 8)+3)/4*4)
 	return obs, v
 }
 
